@@ -49,8 +49,9 @@ class C04(_C03.C03):
         "AL.admits_key", "AL.admits_local_blind", "AL.cmp_split", "AL.zpp_strip", "C03.compare_eq_spec",
     ]
     partial = [
-        "laws 2-10 are stated for clause texts that scan as a version (C03.Clause for laws 3 and 4); that "
-        "Specifier.__init__ only builds such clauses is tied by correspondence (spec.parse) and C12, not proved here",
+        "laws 2 and 5-10 are stated for clause texts that scan as a version, laws 3 and 4 for C03.Clause (which "
+        "C03.parse_readClause + readClause_sound give for everything Specifier.__init__ stores); the scanners "
+        "themselves are tied to the regexes by correspondence and C12",
         "`===` is exempt from laws 3 and 4 by the statement (string equality)"]
     rule = ("correspondence as C03; laws: tuples chosen jointly — one V for two or three clauses, candidates related "
             "by equality (other spelling, trailing zeros), by adding a local label, or by the version order; "
